@@ -50,7 +50,7 @@ NA_REASONS = {
 _B = (" After the proofs, the check also runs the property's executable contracts on the real compiled crates over a stated small scope "
       "(bounded stand-in for the functions of the mechanism that are not under a Verus contract; reported under coverage.bounded, never counted as proved; "
       "a failing input found there is reported as a VIOLATION with a replayable input).")
-BOUNDED_NOTE = {p: _B for p in ("C01", "C02", "C03", "C04", "C10", "C11", "C12", "C16", "C18", "C19", "C20", "C21", "C30", "C31", "C33", "C44")}
+BOUNDED_NOTE = {p: _B for p in ("C29", "C01", "C02", "C03", "C04", "C10", "C11", "C12", "C16", "C18", "C19", "C20", "C21", "C30", "C31", "C33", "C44")}
 NOT_BUILT = "contract designed (DESIGN §3) but not discharged on mechanically extracted text in this build; not claimed."
 
 
